@@ -9,7 +9,7 @@ import ast
 
 from ..engine import rule
 from ..model import Undecided
-from ..cfg import dotted, call_name, is_call, simple_name, unparse, const_value, contains, enclosing
+from ..cfg import same, same_args, dotted, call_name, is_call, simple_name, unparse, const_value, contains, enclosing
 from ..flow import Defs, depends
 from ..util import keyword, returns_of, calls_in, inside, order_key
 
@@ -20,8 +20,8 @@ A = 'mapproxy/util/async_.py'
 
 def _mode_guard(g, node):
     """node only runs in the non-raising mode"""
-    return g.guarded(node, lambda at: at.op is None and unparse(at.expr) == 'raise_exceptions', False) or \
-        g.guarded(node, lambda at: at.op is None and unparse(at.expr) == 'use_result_objects', True)
+    return g.guarded(node, lambda at: at.op is None and same(at.expr, 'raise_exceptions'), False) or \
+        g.guarded(node, lambda at: at.op is None and same(at.expr, 'use_result_objects'), True)
 
 
 @rule('C15.a', floor=2)
@@ -114,7 +114,7 @@ def c15c(ctx):
         ok = ok and isinstance(a, ast.Tuple) and len(a.elts) == 2 and isinstance(a.elts[0], ast.Name)
         if ok:
             ds = defs.of(a.elts[0].id)
-            ok = len(ds) == 1 and ds[0][1] == 0 and unparse(ds[0][0]) == 'task'
+            ok = len(ds) == 1 and ds[0][1] == 0 and same(ds[0][0], 'task')
             res = a.elts[1]
             ok = ok and isinstance(res, ast.Name) and any(is_call(v, 'func') for v, sel in defs.of(res.id))
     ctx.check(ok, 'ThreadWorker.run:index-travels', 'the result tuple is (first element of the task, result of func(*args))', run,
@@ -137,7 +137,7 @@ def c15c(ctx):
         g.guarded(g.node_of[id(stores[0])], eq, False)
     ctx.check(ok, 'ThreadPool._get_results:park-others', 'every other value is parked as results[i] = value', gr,
               fail='out-of-order values are not parked under their own index (lost or attributed to another input)')
-    ok = len(y_pop) == 1 and unparse(y_pop[0][1].value.args[0]) == 'next_result'
+    ok = len(y_pop) == 1 and same(y_pop[0][1].value.args[0], 'next_result')
     if ok:
         w = enclosing(y_pop[0][1], ast.While)
         ok = w is not None and unparse(w.test).replace(' ', '') == 'next_resultinresults'
@@ -164,14 +164,14 @@ def c15c(ctx):
     gets = g.find(lambda x: is_call(x, 'self._get_results'))
     ok = bool(joins) and len(gets) == 2 and g.dominates(gets[0][0], joins[0][0]) and g.dominates(joins[0][0], gets[1][0])
     ctx.check(ok, 'ThreadPool.map_each:drain-after-join', 'results are fetched again after task_queue.join() (nothing left in the queue)', me)
-    ok = all(unparse(c.args[0]) == 'next_result' and unparse(c.args[1]) == 'results' for n, c in gets)
+    ok = all(same(c.args[0], 'next_result') and same(c.args[1], 'results') for n, c in gets)
     ctx.check(ok, 'ThreadPool.map_each:shared-state', 'both passes share next_result and the parked results', me)
 
 
 def _in_sequential(fn, y):
     st = enclosing(y, ast.If)
     while st is not None:
-        if contains(st.test, lambda x: unparse(x) == 'self.pool_size'):
+        if contains(st.test, lambda x: same(x, 'self.pool_size')):
             return True
         st = enclosing(st, ast.If)
     return False
@@ -184,7 +184,7 @@ def c15d(ctx):
     raises = g.find_stmts(lambda s: isinstance(s, ast.Raise))
     ok = bool(raises)
     for n in raises:
-        ok = ok and g.guarded(n, lambda at: at.op is None and unparse(at.expr) == 'raise_exceptions', True)
+        ok = ok and g.guarded(n, lambda at: at.op is None and same(at.expr, 'raise_exceptions'), True)
         ok = ok and g.guarded(n, lambda at: at.mentions(lambda x: is_call(x, 'isinstance') and contains(x, lambda y: isinstance(y, ast.Name) and y.id == 'Exception')), True)
         st = g.stmt[n]
         ok = ok and st.exc is not None and contains(st.exc, lambda x: is_call(x, 'with_traceback'))
@@ -194,15 +194,15 @@ def c15d(ctx):
     ok = bool(sh) and bool(raises) and all(any(g.dominates(s, n) for s, _ in sh) for n in raises)
     ctx.check(ok, 'ThreadPool._fetch_results:shutdown-before-raise', 'the pool is shut down before the exception is re-raised', fr)
     ys = g.find(lambda x: isinstance(x, ast.Yield))
-    ok = len(ys) == 1 and unparse(ys[0][1].value) == 'task_result'
+    ok = len(ys) == 1 and same(ys[0][1].value, 'task_result')
     ctx.check(ok, 'ThreadPool._fetch_results:yield-all', 'every other queue entry is yielded unchanged', fr)
     ri = ctx.fn(A + ':_result_iter')
     g = ri.cfg
     ar = g.find(lambda x: is_call(x, 'AsyncResult'))
-    ok = len(ar) == 1 and [unparse(a) for a in ar[0][1].args] == ['result', 'exception'] and \
-        g.guarded(ar[0][0], lambda at: at.op is None and unparse(at.expr) == 'use_result_objects', True)
+    ok = len(ar) == 1 and same_args(ar[0][1].args, ['result', 'exception']) and \
+        g.guarded(ar[0][0], lambda at: at.op is None and same(at.expr, 'use_result_objects'), True)
     ctx.check(ok, '_result_iter:result-objects', 'result-object mode yields AsyncResult(result, exception) per item', ri)
-    sets = [s for s in ri.walk() if isinstance(s, ast.Assign) and unparse(s.targets[0]) == 'exception' and unparse(s.value) == 'result']
+    sets = [s for s in ri.walk() if isinstance(s, ast.Assign) and unparse(s.targets[0]) == 'exception' and same(s.value, 'result')]
     nulls = [s for s in ri.walk() if isinstance(s, ast.Assign) and unparse(s.targets[0]) == 'result' and const_value(s.value, 1) is None]
     ok = len(sets) == 1 and len(nulls) == 1 and enclosing(sets[0], ast.If) is enclosing(nulls[0], ast.If) and sets[0].lineno < nulls[0].lineno
     if ok:
@@ -222,7 +222,7 @@ def c15d(ctx):
     sc = ctx.fn(A + ':ThreadPool._single_call')
     g = sc.cfg
     rs = g.find_stmts(lambda s: isinstance(s, ast.Raise))
-    ok = bool(rs) and all(g.guarded(n, lambda at: at.op is None and unparse(at.expr) == 'use_result_objects', False) for n in rs)
+    ok = bool(rs) and all(g.guarded(n, lambda at: at.op is None and same(at.expr, 'use_result_objects'), False) for n in rs)
     ctx.check(ok, 'ThreadPool._single_call:raise-mode', 'a single call re-raises unless result objects were requested', sc)
 
 
@@ -261,7 +261,7 @@ def c15e(ctx):
         adds = g.find(lambda x: is_call(x, sink) and len(x.args) == 2)
         ok = len(adds) >= 1 and all(g.guarded(n, lambda at: at.op == '==' and 'layer_img' in (unparse(at.left), unparse(at.right)), False)
                                     for n, x in adds)
-        ok = ok and all(unparse(x.args[0]) == 'layer_img' and unparse(x.args[1]) == 'layer.coverage' for n, x in adds)
+        ok = ok and all(same(x.args[0], 'layer_img') and same(x.args[1], 'layer.coverage') for n, x in adds)
         ctx.check(ok, '%s:adds-every-image' % fn.short, 'every non-empty layer image is added to the merger with its layer coverage', fn,
                   fail='%s does not add each rendered layer image (with layer.coverage) to the merger' % fn.short)
 
